@@ -16,7 +16,7 @@ def run(ctx):
     fam = ctx.tlc_family("FamC04", constants={"Tier": '"%s"' % ctx.tier})
     ctx.exhaustive["FamC04"] = True
     failures = progflow.judge(ctx, fam, "fam")
-    n = 100 if ctx.tier == "quick" else 1500
+    n = 300 if ctx.tier == "quick" else 2500
     failures += progflow.judge(ctx, progflow.generate(ctx, "funcs", n, extra=("-effects",)), "gen")
     progflow.report(ctx, failures)
     return ctx.finish(rule=RULE, assumptions=ASSUME)
